@@ -876,6 +876,17 @@ func (e *SpecEnv) callExpr(n *ast.CallExpr) Value {
 	case "atype":
 		r := e.refTerm(e.eval(arg(0)), n)
 		return IntV{T: atypeOf(ex.st, r), W: 64, Signed: true}
+	case "defined": // defined(x): the local x has been assigned on this path (constant)
+		if id, ok := arg(0).(*ast.Ident); ok {
+			_, found := e.lookup(id.Name)
+			return BoolV{T: boolT(found)}
+		}
+		e.fail(n, "defined() takes a name")
+	case "ret": // ordinal (source order, 1-based) of the return statement the path ends in
+		if e.fr == nil {
+			e.fail(n, "ret() outside a postcondition")
+		}
+		return UntypedInt{N: big.NewInt(int64(ex.returnOrdinal(e.fr)))}
 	case "stopped": // ghost: yield has returned false (iterator protocol)
 		if b, ok := e.cur.ghost["stopped"].(BoolV); ok {
 			return b
